@@ -50,6 +50,8 @@ type Case struct {
 	Hex    string `json:"hex"`
 	// MustAccept: valid by construction
 	MustAccept bool   `json:"must_accept,omitempty"`
+	// MustReject: invalid by construction (violates exactly one validation rule of the specification)
+	MustReject bool   `json:"must_reject,omitempty"`
 	Mode       string `json:"mode,omitempty"`
 	Note       string `json:"note,omitempty"`
 	ASMiB      int    `json:"as_mib,omitempty"`
@@ -322,6 +324,10 @@ func judge(c *Case, o Outcome, alone bool) string {
 		}
 	} else if len(r.Eng) == 1 && r.Eng[0].Compile.OK {
 		verdict = "accepted"
+	}
+	if c.MustReject && (verdict == "accepted" || verdict == "engines-disagree") {
+		violate(c, "impl-violation", "C03:invalid-module-accepted:"+strings.ReplaceAll(strings.SplitN(c.Note, " ", 2)[0], " ", "-"),
+			"a module that violates a validation rule of the specification ("+c.Note+") was accepted", "rejected", verdict)
 	}
 	if c.MustAccept && verdict != "accepted" {
 		msg := ""
